@@ -412,38 +412,58 @@ func checkC13(c *Ctx) {
 			c.Undecided("R3", "Compress loop", h.Instrs[0].Pos(), "no induction variable")
 			return
 		}
+		_ = initV
 		c.Check(step == 2, "R3", "stride", ind.Pos(), "values are every second argument (stride 2)", fmt.Sprintf("stride is %d; field/value pairs alternate, so every second argument is a value", step))
-		// offsets per command: phi edges of initV
+		// offsets per command: wherever (Compress or a helper it calls) the command name is compared with constants,
+		// the small integer constant selected on that branch (phi edge or returned value)
 		got := map[string]int64{}
-		offPhi, ok := initV.(*ssa.Phi)
-		if !ok {
-			c.Undecided("R3", "offset table", ind.Pos(), "the first value position is not selected by a switch on the command")
+		for _, sf := range append([]*ssa.Function{CompFn}, staticCalleesDeep(CompFn, 2)...) {
+			eachInstr(sf, func(_ *ssa.BasicBlock, _ int, in ssa.Instruction) {
+				bo, ok := in.(*ssa.BinOp)
+				if !ok || bo.Op != token.EQL {
+					return
+				}
+				w, isW := constString(bo.Y)
+				if !isW {
+					return
+				}
+				if b, isB := bo.X.Type().Underlying().(*types.Basic); !isB || b.Kind() != types.String {
+					return
+				}
+				for _, r := range *bo.Referrers() {
+					iff, ok := r.(*ssa.If)
+					if !ok {
+						continue
+					}
+					T := iff.Block().Succs[0]
+					eachInstr(sf, func(b2 *ssa.BasicBlock, _ int, x ssa.Instruction) {
+						switch y := x.(type) {
+						case *ssa.Phi:
+							if intBits(y.Type()) == 0 {
+								return
+							}
+							for k, pred := range b2.Preds {
+								if pred == T || (T.Dominates(pred) && len(T.Preds) >= 1 && onlyVia(T, pred)) {
+									if v, isC := constInt(y.Edges[k]); isC {
+										got[w] = v
+									}
+								}
+							}
+						case *ssa.Return:
+							if (b2 == T || T.Dominates(b2)) && len(y.Results) >= 1 {
+								if v, isC := constInt(returnedValues(y)[0]); isC && intBits(y.Results[0].Type()) > 0 {
+									got[w] = v
+								}
+							}
+						}
+					})
+				}
+			})
+		}
+		if len(got) == 0 {
+			c.Undecided("R3", "offset table", ind.Pos(), "the first value position is not selected by comparing the command name with constants")
 			return
 		}
-		eachInstr(CompFn, func(_ *ssa.BasicBlock, _ int, in ssa.Instruction) {
-			bo, ok := in.(*ssa.BinOp)
-			if !ok || bo.Op != token.EQL || bo.X != ssa.Value(cmdP) {
-				return
-			}
-			w, isW := constString(bo.Y)
-			if !isW {
-				return
-			}
-			for _, r := range *bo.Referrers() {
-				iff, ok := r.(*ssa.If)
-				if !ok {
-					continue
-				}
-				T := iff.Block().Succs[0]
-				for k, pred := range offPhi.Block().Preds {
-					if pred == T || T.Dominates(pred) {
-						if v, isC := constInt(offPhi.Edges[k]); isC {
-							got[w] = v
-						}
-					}
-				}
-			}
-		})
 		var names []string
 		for n := range cpsValuePos {
 			names = append(names, n)
@@ -719,3 +739,6 @@ func checkCpsHeader(c *Ctx, decFn *ssa.Function) {
 	c.Check(algOK, "R5", "reader takes algorithm at [len(magic)]", decFn.Pos(), "offset agrees", "the reader does not take the algorithm byte from offset len(magic)")
 	c.Check(stripOK, "R5", "reader strips exactly cpsHdrLen", decFn.Pos(), "src[cpsHdrLen:]", "the reader does not strip exactly the header")
 }
+
+// onlyVia: pred is reached from T without leaving the region T dominates (used to map switch arms to phi edges).
+func onlyVia(T, pred *ssa.BasicBlock) bool { return T.Dominates(pred) }
